@@ -1,0 +1,110 @@
+//go:build verif
+
+// Contracts for the deductive verifier under /verif (gvc). This file contains no
+// declarations: it is comment-only and excluded from normal builds by the tag.
+
+package metrics
+
+// Abstract view of a scope: insts maps a metric id to the instance stored for it (nil = absent).
+// The unsafe/atomic leaf functions load, store, instance and list are assumed to implement this view.
+
+//@ ghostfield Scope.insts intmap
+//@ spec func mid(m Metric) int
+//@ spec func cval(x any) int64 = unbox(x, *counterValue).Value
+//@ spec func cv(s *Scope, k int) int64 = ite(s.insts[k] == nil, 0, cval(s.insts[k]))
+//@ spec func regOK() bool = len(metrics) >= 1 && forall(k, 0, len(metrics), mid(metrics[k]) == k && implies(k >= 1, hastype(metrics[k], Counter)))
+//@ spec func scopeOK(s *Scope) bool = s.insts[0] == nil && forall(k, 1, len(metrics), s.insts[k] == nil || (hastype(s.insts[k], *counterValue) && allocated(unbox(s.insts[k], *counterValue))))
+//@ spec func injective(s *Scope) bool = forall(k, 1, len(metrics), forall(j, 1, len(metrics), implies(k != j && s.insts[k] != nil, s.insts[k] != s.insts[j])))
+//@ spec func disjoint(s *Scope, u *Scope) bool = forall(k, 1, len(metrics), forall(j, 1, len(metrics), implies(s.insts[k] != nil, s.insts[k] != u.insts[j])))
+
+//@ extern func metrics.(*Scope).load (m)
+//@   requires s != nil
+//@   ensures  result == s.insts[mid(m)]
+//@   modifies nothing
+
+//@ extern func metrics.(*Scope).store (m, v)
+//@   requires s != nil
+//@   ensures  s.insts == upd(old(s.insts), mid(m), v)
+//@   modifies s.insts
+
+//@ extern func metrics.(*Scope).instance (m)
+//@   requires s != nil
+//@   requires mid(m) != 0 || s.insts[0] != nil
+//@   ensures  result != nil
+//@   ensures  implies(old(s.insts[mid(m)]) != nil, result == old(s.insts[mid(m)]) && s.insts == old(s.insts))
+//@   ensures  implies(old(s.insts[mid(m)]) == nil, s.insts == upd(old(s.insts), mid(m), result))
+//@   ensures  implies(old(s.insts[mid(m)]) == nil && hastype(m, Counter), hastype(result, *counterValue) && fresh(unbox(result, *counterValue)) && cval(result) == 0)
+//@   modifies s.insts
+
+//@ extern func metrics.Metric.metricID
+//@   ensures result == mid(recv)
+//@   modifies nothing
+
+//@ extern func metrics.Metric.merge (x, y)
+//@   requires implies(hastype(recv, Counter), hastype(x, *counterValue) && hastype(y, *counterValue) && unbox(x, *counterValue) != nil && unbox(y, *counterValue) != nil)
+//@   ensures  implies(hastype(recv, Counter) && x != y, cval(x) == old(cval(x)) + old(cval(y)))
+//@   modifies unbox(x, *counterValue).Value
+
+//@ func metrics.(*Scope).Merge
+//@   requires s != nil && u != nil && s != u && regOK() && scopeOK(s) && scopeOK(u) && injective(s) && disjoint(s, u)
+//@   ensures  additive: forall(k, 1, len(metrics), cv(s, k) == old(cv(s, k)) + old(cv(u, k)))
+//@   ensures  source-unchanged: u.insts == old(u.insts) && forall(k, 1, len(metrics), cv(u, k) == old(cv(u, k)))
+//@   ensures  no-sharing: disjoint(s, u) && injective(s) && scopeOK(s)
+//@   modifies s.insts, counterValue.Value
+//@   loop 1 invariant regOK() && scopeOK(s) && scopeOK(u) && injective(s) && disjoint(s, u) && u.insts == old(u.insts)
+//@   loop 1 invariant forall(k, 1, range_idx, cv(s, k) == old(cv(s, k)) + old(cv(u, k)))
+//@   loop 1 invariant forall(k, range_idx, len(metrics), s.insts[k] == old(s.insts[k]) && cv(s, k) == old(cv(s, k)))
+//@   loop 1 invariant forall(k, 1, len(metrics), cv(u, k) == old(cv(u, k)))
+//@   loop 1 invariant forall(k, 1, len(metrics), s.insts[k] == old(s.insts[k]) || (old(s.insts[k]) == nil && fresh(unbox(s.insts[k], *counterValue))))
+
+//@ func metrics.(*Scope).Reset
+//@   requires s != nil && regOK() && u != s
+//@   ensures  copies: implies(u != nil, forall(k, 0, len(metrics), s.insts[k] == u.insts[k]) && u.insts == old(u.insts))
+//@   ensures  cleared: implies(u == nil, s.storage == nil)
+//@   modifies s.insts, s.storage
+//@   loop 1 invariant regOK() && u.insts == old(u.insts)
+//@   loop 1 invariant forall(k, 0, range_idx, s.insts[k] == u.insts[k])
+
+// ---- counters ----
+
+//@ axiom counter-id: mid(boxed(c, Metric)) == c.id
+//@   vars c Counter
+
+//@ func metrics.Counter.metricID
+//@   ensures result == c.id
+//@   modifies nothing
+
+//@ func metrics.Counter.newInstance
+//@   ensures hastype(result, *counterValue) && fresh(unbox(result, *counterValue)) && cval(result) == 0
+//@   modifies nothing
+
+//@ func metrics.(*counterValue).incr
+//@   requires c != nil
+//@   ensures  c.Value == old(c.Value) + n
+//@   modifies c.Value
+
+//@ func metrics.(*counterValue).load
+//@   requires c != nil
+//@   ensures  result == c.Value
+//@   modifies nothing
+
+//@ func metrics.(*counterValue).merge
+//@   requires c != nil && d != nil
+//@   ensures  c.Value == old(c.Value) + old(d.Value)
+//@   modifies c.Value
+
+//@ func metrics.Counter.merge (x, y)
+//@   requires hastype(x, *counterValue) && hastype(y, *counterValue) && unbox(x, *counterValue) != nil && unbox(y, *counterValue) != nil
+//@   ensures  implies(x != y, cval(x) == old(cval(x)) + old(cval(y)))
+//@   modifies unbox(x, *counterValue).Value
+
+//@ func metrics.Counter.Incr (scope, n)
+//@   requires scope != nil && c.id >= 1 && scopeOK(scope) && injective(scope) && c.id < len(metrics)
+//@   ensures  incremented: cv(scope, c.id) == old(cv(scope, c.id)) + n
+//@   ensures  others-unchanged: forall(k, 1, len(metrics), implies(k != c.id, scope.insts[k] == old(scope.insts[k]) && cv(scope, k) == old(cv(scope, k))))
+//@   modifies scope.insts, counterValue.Value
+
+//@ func metrics.Counter.Value (scope)
+//@   requires scope != nil && c.id >= 1 && scopeOK(scope) && c.id < len(metrics)
+//@   ensures  result == old(cv(scope, c.id))
+//@   modifies scope.insts
